@@ -819,6 +819,9 @@ def cmp_funcfl(c, plan, text):
     c.num("grid-line", f["drho"], ctx.drho(), what="drho")
     c.num("grid-line", f["dr"], ctx.dr(), what="dr")
     c.num("grid-line", f["cutoff"], ctx.cutoff, what="cutoff=(nr-1)dr")
+    # the header DECLARES the grid: the consumer computes every rho_i and r_i from these numbers (the values carry 17 digits)
+    c.digits("grid-line", f["drho"], ctx.drho(), F(1, 10 ** 9), what="drho")
+    c.digits("grid-line", f["dr"], ctx.dr(), F(1, 10 ** 9), what="dr")
     c.cells_of("embed", f["embed"], plan[3], "embedding function")
     c.cells_of("effective-charge", f["Z"], plan[4], "effective charge")
     c.cells_of("density", f["dens"], plan[5], "density")
@@ -1117,36 +1120,6 @@ def calibrate_eeam(run):
         run.violation(dict(engine="layout", target="DL_POLY_EAM_fs", clause="dl_poly-ground-truth", route="func"),
                       "DL_POLY_EAM_fs: cluster energy recomputed from the written TABEAM with the consumer's rules is %.6f; DL_POLY computed %.6f for this model "
                       "(tests/test_dlpoly_writeTABEAM.py::testDensityFunctions)" % (energy, expect), dict(energy=energy, expect=expect))
-
-
-def funcfl_negative_pair(run):
-    """the funcfl format stores Z(r) = sqrt(r phi(r) / 27.2 / 0.529): a pair potential that is negative somewhere on the grid has
-    no representation, so no file may be produced for it (squaring any Z that is written cannot give phi back)"""
-    from atsim.potentials import Potential, EAMPotential
-    for name, phi in (("attractive tail", lambda r: 2.0 - r), ("negative everywhere", lambda r: -1.0 - 0.5 * r), ("well", lambda r: (r - 1.5) ** 2 - 0.25)):
-        eam = EAMPotential("Al", 13, 26.98, lambda rho: -rho ** 0.5, lambda r: 1.0 / (1.0 + r), 4.05, "fcc")
-        sink = Sink(False)
-        run.evaluations += 1
-        try:
-            P.writeFuncFL(5, 0.5, 9, 0.5, [eam], [Potential("Al", "Al", phi)], sink, "title")
-            raised = None
-        except Exception as e:
-            raised = e
-        text = sink.value()
-        if raised is None or text:
-            vals = ""
-            if text:
-                try:
-                    f = formats.parse_funcfl(text)
-                    k = next((i for i in range(1, f["nr"]) if phi(i * 0.5) < 0), None)
-                    if k is not None:
-                        z = float(f["Z"][k])
-                        vals = ": at r=%s the file's Z gives phi = %r, the pair potential is %r" % (k * 0.5, z * z * 27.2 * 0.529 / (k * 0.5), phi(k * 0.5))
-                except Exception as e:
-                    vals = " (unreadable: %s)" % e
-            run.violation(dict(engine="layout", target="funcfl", clause="negative-pair", route="func"),
-                          "funcfl via func: [negative-pair] a pair potential with %s (negative on the grid) %s%s" % (
-                              name, "was written as a funcfl file" if raised is None else "was refused but %d characters were written" % len(text), vals), dict(name=name))
 
 
 def main(prop, tier, seed):
